@@ -3560,6 +3560,51 @@ def trunc_float(r: R, chk, entries: List[str], rule="TRUNC-FLOAT"):
 SHAPE_CHECKING = ("np.dot", "np.matmul", "np.inner", "np.tensordot", "np.einsum")
 
 
+def _value_aliases(fn, seed: str) -> Set[str]:
+    """locals that hold the same sequence as `seed` (plain copies, tuple / list / np.array of it, results of private helpers
+    that are handed it — `newweights = _weights_as_tuple(value)`)"""
+    aliases = {seed}
+    grow = True
+    while grow:
+        grow = False
+        for a_ in ast.walk(fn):
+            if isinstance(a_, ast.Assign) and len(a_.targets) == 1 and isinstance(a_.targets[0], ast.Name) and a_.targets[0].id not in aliases:
+                v_ = a_.value
+                if isinstance(v_, ast.Call) and v_.args and isinstance(v_.args[0], ast.Name) and v_.args[0].id in aliases and (seg(v_.func) in ("tuple", "list", "np.array", "np.asarray") or seg(v_.func).split(".")[-1].startswith("_")):
+                    aliases.add(a_.targets[0].id)
+                    grow = True
+                elif isinstance(v_, ast.Name) and v_.id in aliases:
+                    aliases.add(a_.targets[0].id)
+                    grow = True
+    return aliases
+
+
+def _contracted(r: R, f, param: str, depth: int = 3):
+    """(shape-checking use, zip use) of the parameter `param` of the function `f`, following it into the functions it is
+    handed to (a few levels)"""
+    aliases = _value_aliases(f.node, param)
+    for c in ast.walk(f.node):
+        if isinstance(c, ast.Call) and seg(c.func) in SHAPE_CHECKING and any(isinstance(x, ast.Name) and x.id in aliases for x in c.args):
+            return c, None
+        if isinstance(c, ast.BinOp) and isinstance(c.op, ast.MatMult) and any(isinstance(x, ast.Name) and x.id in aliases for x in (c.left, c.right)):
+            return c, None
+    zips = [c for c in ast.walk(f.node) if isinstance(c, ast.Call) and seg(c.func) == "zip" and any(isinstance(x, ast.Name) and x.id in aliases for x in c.args)]
+    if depth > 0 and r.has(f.qual) and f.qual in r.A.roots:
+        for cr in r.A.roots[f.qual].calls:
+            node = cr.node
+            if not isinstance(node, ast.Call):
+                continue
+            for g in cr.callees:
+                gparams = [p for p in g.params if p not in ("self", "cls")]
+                for k, a in enumerate(node.args):
+                    if isinstance(a, ast.Name) and a.id in aliases and k < len(gparams):
+                        use, z = _contracted(r, g, gparams[k], depth - 1)
+                        if use is not None:
+                            return use, None
+                        zips = zips or ([z] if z is not None else [])
+    return None, (zips[0] if zips else None)
+
+
 def len_weights(r: R, chk, setter: str = "curves.BaseCurve.weights.setter", rule="LEN-WEIGHTS"):
     """len(weights) = npts is part of the state invariant.  The setter has no explicit length test: what refuses a vector of the
     wrong length is the contraction of the weights with the npts-row basis matrix inside the root finder (numpy checks the
@@ -3568,39 +3613,16 @@ def len_weights(r: R, chk, setter: str = "curves.BaseCurve.weights.setter", rule
     ctx = r.root(setter)
     fi = ctx.fi
     val = next((p for p in fi.params if p not in ("self", "cls")), None)
-    explicit = [c for c in ast.walk(fi.node) if isinstance(c, ast.Compare) and any(isinstance(x, ast.Call) and seg(x.func) == "len" and x.args and isinstance(x.args[0], ast.Name) and x.args[0].id == val for x in ast.walk(c)) and "npts" in seg(c)]
+    aliases = _value_aliases(fi.node, val)
+    explicit = [c for c in ast.walk(fi.node) if isinstance(c, ast.Compare) and any(isinstance(x, ast.Call) and seg(x.func) == "len" and x.args and isinstance(x.args[0], ast.Name) and x.args[0].id in aliases for x in ast.walk(c)) and "npts" in seg(c)]
     found = []
-    why = "the value is handed to no function"
+    why = "the value is handed to no function that contracts it with the basis"
     if not explicit:
-        for cr in ctx.calls:
-            node = cr.node
-            if not isinstance(node, ast.Call):
-                continue
-            for f in cr.callees:
-                fparams = [p for p in f.params if p not in ("self", "cls")]
-                for k, a in enumerate(node.args):
-                    if not (isinstance(a, ast.Name) and a.id == val and k < len(fparams)):
-                        continue
-                    p = fparams[k]
-                    aliases = {p}
-                    for a_ in ast.walk(f.node):
-                        if isinstance(a_, ast.Assign) and len(a_.targets) == 1 and isinstance(a_.targets[0], ast.Name):
-                            v_ = a_.value
-                            while isinstance(v_, ast.Call) and seg(v_.func) in ("tuple", "list", "np.array", "np.asarray") and v_.args:
-                                v_ = v_.args[0]
-                            if isinstance(v_, ast.Name) and v_.id in aliases:
-                                aliases.add(a_.targets[0].id)
-                    uses = []
-                    for c in ast.walk(f.node):
-                        if isinstance(c, ast.Call) and seg(c.func) in SHAPE_CHECKING and any(isinstance(x, ast.Name) and x.id in aliases for x in c.args):
-                            uses.append(c)
-                        if isinstance(c, ast.BinOp) and isinstance(c.op, ast.MatMult) and any(isinstance(x, ast.Name) and x.id in aliases for x in (c.left, c.right)):
-                            uses.append(c)
-                    zips = [c for c in ast.walk(f.node) if isinstance(c, ast.Call) and seg(c.func) == "zip" and any(isinstance(x, ast.Name) and x.id in aliases for x in c.args)]
-                    if uses:
-                        found.append((f.qual, uses[0]))
-                    else:
-                        why = f"{f.qual} consumes `{p}` " + (f"through `{seg(zips[0], 40)}`, which stops at the shorter sequence" if zips else "without a contraction that checks its length")
+        use, z = _contracted(r, fi, val)
+        if use is not None:
+            found.append(use)
+        elif z is not None:
+            why = f"it is consumed through `{seg(z, 40)}`, which stops at the shorter sequence"
     ok = bool(explicit) or bool(found)
     chk.ob(rule, f"{setter}: a weight vector whose length is not npts is refused before the store", ok, loc=f"{fi.module}.py:{fi.node.lineno}",
            detail="" if ok else f"{setter}: no comparison of len({val}) with npts guards the store, and {why}: a weight vector that is too long (no sign change in its first npts entries) is stored — len(weights) != npts, the curve cannot be evaluated",
